@@ -468,6 +468,34 @@ def grid_points() -> Iterator[dict]:
                "default_backoff": 3 * TPS}
 
 
+DAY = 86400 * TPS
+HOUR = 3600 * TPS
+
+
+def day_points() -> Iterator[dict]:
+    """Ages around and beyond whole days, timeouts of a day and more, fractional timeouts, delays of
+    more than a day: `timedelta.seconds`-style slips (days dropped, fractions truncated) and any
+    other unit confusion show up only here. Small enough to be run completely in every tier."""
+    raised = [["ok"], ["temporary", D2], ["temporary", TPS // 2], ["temporary", HOUR], ["temporary", DAY + 60 * TPS],
+              ["children", DAY + 60 * TPS], ["arbitrary"], ["permanent"]]
+    for timeout in [TPS // 2, 2 * TPS + TPS // 4, HOUR, DAY, 90000 * TPS, 2 * DAY]:
+        half = (timeout // 2) // Q * Q
+        runtimes = sorted({r for r in [
+            0, timeout - TPS // 2, timeout - Q, timeout, timeout + Q, timeout + TPS // 2, timeout + TPS - Q, timeout + TPS,
+            DAY - Q, DAY, DAY + Q, DAY + 300 * TPS, DAY + half, 2 * DAY - Q, 2 * DAY, 2 * DAY + 300 * TPS, 3 * DAY + half]
+            if r >= 0})
+        for runtime, x in itertools.product(runtimes, raised):
+            for backoff in ([None, D2] if x[0] == "arbitrary" else [None]):
+                for dur in ([0, TPS] if x[0] in ("temporary", "arbitrary") and runtime < timeout else [0]):
+                    yield {"errors": None, "default_errors": "temporary", "timeout": timeout, "runtime": runtime,
+                           "dur": dur, "retries": None, "stored": 1, "x": x, "backoff": backoff, "shape": "fresh",
+                           "default_backoff": DEFAULT_BACKOFF}
+    # no timeout at all, but an old record and long delays: nothing may overflow or wrap
+    for runtime, x in itertools.product([DAY - Q, DAY + 300 * TPS, 400 * DAY], raised):
+        yield {"errors": None, "default_errors": "temporary", "timeout": None, "runtime": runtime, "dur": 0,
+               "retries": 3, "stored": 1, "x": x, "backoff": None, "shape": "fresh", "default_backoff": DEFAULT_BACKOFF}
+
+
 def point_limits(p: dict) -> dict:
     return {"errors": p["errors"], "timeout": p["timeout"], "retries": p["retries"], "backoff": p["backoff"]}
 
@@ -667,16 +695,25 @@ class Script:
         return fn
 
 
-def gen_limits(rng: random.Random) -> dict:
+def gen_limits(rng: random.Random, long: bool = False) -> dict:
+    if long:
+        # fractional timeouts, an hour, a day and more
+        return {"errors": rng.choice([None, None, None, "temporary", "permanent"]),
+                "timeout": rng.choice([TPS // 2, 2 * TPS + TPS // 4, 3 * TPS + 3 * TPS // 4, 600 * TPS, HOUR, HOUR,
+                                       DAY, 90000 * TPS, 2 * DAY, None]),
+                "retries": rng.choice([None, None, None, 3, 5]),
+                "backoff": rng.choice([None, TPS // 2, 2 * TPS, HOUR // 2, DAY + 60 * TPS])}
     return {"errors": rng.choice([None, None, "ignored", "temporary", "permanent"]),
             "timeout": rng.choice([None, None, None, 0, TPS, 3 * TPS, 5 * TPS, 8 * TPS, 20 * TPS, 90 * TPS]),
             "retries": rng.choice([None, None, 0, 1, 2, 3, 3, 5]),
             "backoff": rng.choice([None, 0, TPS // 2, 2 * TPS, 7 * TPS])}
 
 
-def gen_raised(rng: random.Random, children: bool) -> list:
+def gen_raised(rng: random.Random, children: bool, long: bool = False) -> list:
     r = rng.random()
     delays = [None, 0, Q, TPS // 2, TPS, 2 * TPS, 3 * TPS, 5 * TPS, -TPS]
+    if long:
+        delays = [Q, TPS // 4, TPS // 2, TPS, 60 * TPS, 60 * TPS, 1800 * TPS, DAY - Q, DAY + 60 * TPS, 2 * DAY + TPS // 2, 5 * TPS]
     if r < 0.38:
         return ["temporary", rng.choice(delays)]
     if r < 0.70:
@@ -688,15 +725,22 @@ def gen_raised(rng: random.Random, children: bool) -> list:
     return ["ok"]
 
 
-def gen_script(rng: random.Random, children: bool = True) -> list:
+def gen_script(rng: random.Random, children: bool = True, long: bool = False) -> list:
     n = rng.choice([1, 2, 3, 3, 4, 5, 6, 8])
-    return [[gen_raised(rng, children), rng.choice([0, 0, 0, 0, Q, TPS, 3 * TPS])] for _ in range(n)]
+    return [[gen_raised(rng, children, long), rng.choice([0, 0, 0, 0, Q, TPS, 3 * TPS])] for _ in range(n)]
 
 
-def gen_plan(rng: random.Random, n: int = 12) -> list:
+def gen_plan(rng: random.Random, n: int = 12, long: bool = False) -> list:
     plan = []
+    qs = TPS // Q   # quanta per second
     for _ in range(n):
         r = rng.random()
+        if long and r < 0.45:
+            # operator downtime / late events of about a day and more, fractions of a second late
+            late = rng.choice([DAY // Q - 1, DAY // Q, DAY // Q + 300 * qs, DAY // Q + 1800 * qs, 2 * DAY // Q,
+                               2 * DAY // Q + 300 * qs, 3600 * qs, qs // 2, qs + qs // 2, 2 * qs + 3 * qs // 4])
+            plan.append([rng.choice(["restart", "restart", "late"]), late])
+            continue
         if r < 0.50:
             plan.append(["exact"])
         elif r < 0.65:
@@ -712,12 +756,24 @@ def gen_plan(rng: random.Random, n: int = 12) -> list:
 
 def gen_history(rng: random.Random, kind: str | None = None) -> dict:
     kind = kind or rng.choice(["change"] * 5 + ["pair"] * 2 + ["sub"] * 2 + ["activity", "daemon", "timer"])
-    h: dict[str, Any] = {"kind": kind, "storage": rng.choice(["smart", "annotations", "status"]),
+    long = rng.random() < 0.3
+    if long:
+        # same kinds, but ages/downtimes/delays around and beyond whole days and fractional timeouts
+        _rng = rng
+        gl, gs, gp = gen_limits, gen_script, gen_plan
+        return _gen_history(rng, kind, lambda r: gl(r, True), lambda r, c=True: gs(r, c, True),
+                            lambda r: gp(r, 12, True), "long")
+    return _gen_history(rng, kind, gen_limits, gen_script, gen_plan, "short")
+
+
+def _gen_history(rng: random.Random, kind: str, gen_limits: Any, gen_script: Any, gen_plan: Any, flavour: str) -> dict:
+    h: dict[str, Any] = {"kind": kind, "flavour": flavour, "storage": rng.choice(["smart", "annotations", "status"]),
                          "default_backoff": rng.choice([DEFAULT_BACKOFF, DEFAULT_BACKOFF, 3 * TPS, TPS]),
                          "t0": rng.choice([0, Q, 5 * TPS, 1000 * TPS + 48])}
     inmem = kind in ("activity", "daemon", "timer")
     if kind == "sub":
-        h["handlers"] = [{"id": "p", "limits": rng.choice([{}, {}, gen_limits(rng)]), "script": []},
+        plim = gen_limits(rng) if flavour == "long" and rng.random() < 0.7 else rng.choice([{}, {}, gen_limits(rng)])
+        h["handlers"] = [{"id": "p", "limits": plim, "script": []},
                          {"id": "p/s1", "limits": gen_limits(rng), "script": gen_script(rng, False)},
                          {"id": "p/s2", "limits": gen_limits(rng), "script": gen_script(rng, False)}]
         h["handlers"][0]["limits"] = lim_json(h["handlers"][0]["limits"])
@@ -1228,6 +1284,7 @@ def run_histories(ctx: Ctx, hists: list[dict], use_model: bool = True) -> None:
             ctx.tie_fail(f"harness: non-dyadic time in a history: {e}", {"part": "history", "hist": hist})
             continue
         ctx.count("history.kind", hist["kind"])
+        ctx.count("history.flavour", hist.get("flavour", "corpus"))
         for chk in checks:
             atts = [e for e in chk["events"] if e["ev"] == "attempt"]
             nontrivial = any((not e["out"]["final"]) or e["out"]["exc"] != "none" for e in atts) or \
@@ -1291,9 +1348,13 @@ def run(ctx: Ctx) -> None:
     n = ctx.budget(6000, total)
     if n < total:
         points = ctx.rng.sample(points, n)
+    dpoints = list(day_points())        # long ages / day boundaries / fractional timeouts: always all
+    points = dpoints + points
+    total += len(dpoints)
     simloop.run_sim(lambda: run_grid(ctx, points), wall_limit=600.0)
     ctx.extra["grid_total_points"] = total
     ctx.extra["grid_points_run"] = len(points)
+    ctx.extra["grid_day_points"] = len(dpoints)
     ctx.exhaustive = (len(points) == total)
     ctx.extra["exhaustive_scope"] = "the grid (D) only; the attempt sequences (S) are sampled"
     hists = [gen_history(ctx.rng) for _ in range(ctx.budget(1000, 40000))]
@@ -1306,7 +1367,7 @@ def search(ctx: Ctx, broken: list) -> None:
     fails on the real code (oracle only, the whole grid, ten times the histories, biased to the
     handlers/limits of the diverging inputs)."""
     K.load()
-    simloop.run_sim(lambda: run_grid(ctx, list(grid_points()), use_model=False), wall_limit=900.0)
+    simloop.run_sim(lambda: run_grid(ctx, list(day_points()) + list(grid_points()), use_model=False), wall_limit=900.0)
     seeds = []
     for b in broken:
         inp = (b.replay or {}).get("input") if isinstance(b.replay, dict) else None
